@@ -14,6 +14,7 @@ import (
 	"net/http/httptest"
 	"strings"
 	"sync"
+	"sync/atomic"
 	"time"
 	"unsafe"
 
@@ -412,6 +413,8 @@ func streamConc(c *Ctx) {
 	sharedEndErrorProbe(c)
 	sharedContextErrorProbe(c)
 	negotiationPerCallProbe(c)
+	sharedDecodeTargetProbe(c)
+	recoverPerStreamProbe(c)
 	c.Note("%d goroutines x %d calls over %d client configurations; %d buffer-pool and %d codec-pool events recorded", G, K, len(sets), len(events), len(cevents))
 }
 
@@ -600,6 +603,121 @@ func sharedContextErrorProbe(c *Ctx) {
 					c.Fail("conc-shared-context-error", desc, got, "an error handed to one call must not be shared with another: Meta() writes into it")
 				}
 			}
+		}
+	}
+}
+
+// trackingCodec notes every message value it is asked to decode into, and rendezvouses two
+// concurrent decodes so that both are inside Unmarshal at the same time.
+type trackingCodec struct {
+	rawCodec
+	mu       *sync.Mutex
+	active   map[any]int
+	overlaps *int32
+	gate     chan struct{}
+}
+
+func (t trackingCodec) Unmarshal(data []byte, msg any) error {
+	t.mu.Lock()
+	t.active[msg]++
+	if t.active[msg] > 1 {
+		atomic.AddInt32(t.overlaps, 1)
+	}
+	t.mu.Unlock()
+	if len(data) > 0 && data[0] == 0xC2 { // the second message of a probe request: hold it
+		select {
+		case t.gate <- struct{}{}:
+		case <-t.gate:
+		case <-time.After(300 * time.Millisecond):
+		}
+		time.Sleep(20 * time.Millisecond)
+	}
+	err := t.rawCodec.Unmarshal(data, msg)
+	t.mu.Lock()
+	t.active[msg]--
+	t.mu.Unlock()
+	return err
+}
+
+// sharedDecodeTargetProbe: two requests served at the same time never decode into the same
+// message value - also not the message a handler reads only to see that the request has ended
+// (round 10, C13-mm).
+func sharedDecodeTargetProbe(c *Ctx) {
+	for _, kind := range []string{"unary", "server"} {
+		var overlaps int32
+		codec := trackingCodec{rawCodec{"raw"}, &sync.Mutex{}, map[any]int{}, &overlaps, make(chan struct{})}
+		var h http.Handler
+		proto := "grpcweb"
+		if kind == "unary" {
+			h = connect.NewUnaryHandler("/s/m", func(ctx context.Context, r *connect.Request[[]byte]) (*connect.Response[[]byte], error) {
+				return connect.NewResponse(&[]byte{1}), nil
+			}, connect.WithCodec(codec))
+		} else {
+			proto = "connect"
+			h = connect.NewServerStreamHandler("/s/m", func(ctx context.Context, r *connect.Request[[]byte], s *connect.ServerStream[[]byte]) error {
+				return nil
+			}, connect.WithCodec(codec))
+		}
+		var wg sync.WaitGroup
+		for i := 0; i < 2; i++ {
+			wg.Add(1)
+			go func() {
+				defer wg.Done()
+				body := append(frame(0, []byte{1}), frame(0, []byte{0xC2, 2})...)
+				req := httptest.NewRequest(http.MethodPost, "/s/m", bytes.NewReader(body))
+				req.ProtoMajor, req.ProtoMinor, req.Proto = 2, 0, "HTTP/2.0"
+				req.Header.Set("Content-Type", ctFor(proto, kind, "raw"))
+				h.ServeHTTP(httptest.NewRecorder(), req)
+			}()
+		}
+		wg.Wait()
+		c.Count("shared-decode-target")
+		if n := atomic.LoadInt32(&overlaps); n != 0 {
+			c.Fail("conc-shared-decode-target", "two concurrent "+kind+" requests that each carry a second message, one handler", fmt.Sprintf("%d decode(s) into a message value another request was decoding into at that moment", n), "each request decodes into values of its own")
+		}
+	}
+}
+
+// recoverPerStreamProbe: the recovery of one stream's panic does not depend on what other streams
+// of the same handler are doing: A enters the handler and waits, B runs to its end, then A panics -
+// and A's client gets the recovery function's error (round 10, C13-mn).
+func recoverPerStreamProbe(c *Ctx) {
+	for _, proto := range []string{"connect", "grpc", "grpcweb"} {
+		aIn, bDone := make(chan struct{}), make(chan struct{})
+		h := connect.NewServerStreamHandler("/s/m", func(ctx context.Context, r *connect.Request[[]byte], s *connect.ServerStream[[]byte]) error {
+			if len(*r.Msg) > 0 && (*r.Msg)[0] == 'A' {
+				close(aIn)
+				select {
+				case <-bDone:
+				case <-time.After(3 * time.Second):
+				}
+				panic("stream A gives up")
+			}
+			return s.Send(&[]byte{1})
+		}, connect.WithCodec(rawCodec{"raw"}), connect.WithRecover(func(context.Context, connect.Spec, http.Header, any) error {
+			return connect.NewError(connect.CodeFailedPrecondition, errors.New("recovered"))
+		}))
+		desc := proto + ": stream A waits inside the handler, stream B completes, then A panics (WithRecover installed)"
+		c.Count("recover-per-stream")
+		got := safely(func() string {
+			ica, icb := &inprocClient{h: h}, &inprocClient{h: h}
+			res := make(chan error, 1)
+			go func() {
+				v := callClient(proto, "server", ica, nil, [][]byte{{'A'}})
+				res <- v.err
+			}()
+			select {
+			case <-aIn:
+			case <-time.After(3 * time.Second):
+				return "stream A never reached the handler"
+			}
+			vb := callClient(proto, "server", icb, nil, [][]byte{{'B'}})
+			close(bDone)
+			aerr := <-res
+			return fmt.Sprintf("A=%s (panic escaped=%v) B=%s", codeOrOKp(aerr), ica.panicked, codeOrOKp(vb.err))
+		})
+		if got != "A=failed_precondition (panic escaped=false) B=ok" {
+			c.Fail("conc-recover-depends-on-others", desc, got, "each call's result is what the same call would produce alone: A=failed_precondition B=ok")
 		}
 	}
 }
